@@ -69,6 +69,7 @@ async fn quiesce(
     sync_no: &mut usize,
     outs: &mut BTreeMap<usize, Vec<String>>,
     quiet_needed: usize,
+    skip: &std::collections::BTreeSet<usize>,
 ) {
     let mut quiet = 0;
     let mut round = 0;
@@ -80,6 +81,9 @@ async fn quiesce(
         round += 1;
         let mut fresh = 0usize;
         for (c, cl) in clients.iter_mut() {
+            if skip.contains(c) {
+                continue;
+            }
             *sync_no += 1;
             let tok = format!("SYNC{}X{}", seqno, *sync_no);
             if !cl.eof {
@@ -120,6 +124,8 @@ async fn run_seq<W: Write>(mut cfg: MainConfig, ops: &[&str], out: &mut W, seqno
     let mut sync_no = 0usize;
     let mut phase = "setup";
     let mut burst: BTreeMap<usize, Vec<String>> = BTreeMap::new();
+    // connections the harness does not read before the burst is over (a client that stopped reading)
+    let mut muted: std::collections::BTreeSet<usize> = Default::default();
     for op in ops {
         let toks: Vec<&str> = op.split(' ').collect();
         match toks[0] {
@@ -142,6 +148,42 @@ async fn run_seq<W: Write>(mut cfg: MainConfig, ops: &[&str], out: &mut W, seqno
                     _ => writeln!(out, "ev connect-failed {}", c).unwrap(),
                 }
             }
+            "connect-small" => {
+                // a client with a tiny receive buffer: the server's writes to it block early
+                let c: usize = toks[1].parse().unwrap();
+                let sock = tokio::net::TcpSocket::new_v4().unwrap();
+                sock.set_recv_buffer_size(2048).ok();
+                let addr: std::net::SocketAddr = format!("127.0.0.1:{}", port).parse().unwrap();
+                match tokio::time::timeout(TMO, sock.connect(addr)).await {
+                    Ok(Ok(s)) => {
+                        s.set_nodelay(true).ok();
+                        clients.insert(
+                            c,
+                            Cl {
+                                stream: s,
+                                buf: vec![],
+                                eof: false,
+                            },
+                        );
+                    }
+                    _ => writeln!(out, "ev connect-failed {}", c).unwrap(),
+                }
+            }
+            "send" => {
+                // write a line without waiting for (or reading) any answer
+                let c: usize = toks[1].parse().unwrap();
+                if let Some(cl) = clients.get_mut(&c) {
+                    let data = format!("{}\r\n", unesc(toks[2]));
+                    cl.stream.write_all(data.as_bytes()).await.ok();
+                }
+            }
+            "sleep" => {
+                let ms: u64 = toks[1].parse().unwrap();
+                tokio::time::sleep(Duration::from_millis(ms)).await;
+            }
+            "mute" => {
+                muted.insert(toks[1].parse().unwrap());
+            }
             "line" => {
                 let c: usize = toks[1].parse().unwrap();
                 let text = unesc(toks[2]);
@@ -161,7 +203,7 @@ async fn run_seq<W: Write>(mut cfg: MainConfig, ops: &[&str], out: &mut W, seqno
             "endburst" => {
                 // state after set-up (give relays of the set-up phase a moment: sync everyone)
                 let mut sink: BTreeMap<usize, Vec<String>> = BTreeMap::new();
-                quiesce(&mut clients, seqno, &mut sync_no, &mut sink, 4).await;
+                quiesce(&mut clients, seqno, &mut sync_no, &mut sink, 4, &muted).await;
                 if sink.values().any(|v| v.iter().any(|x| x == "<<timeout>>")) {
                     writeln!(out, "ev setup-sync-timeout").unwrap();
                 }
@@ -194,7 +236,7 @@ async fn run_seq<W: Write>(mut cfg: MainConfig, ops: &[&str], out: &mut W, seqno
                 }
                 // two synchronisation rounds over every connection, collecting what arrived
                 let mut outs: BTreeMap<usize, Vec<String>> = BTreeMap::new();
-                quiesce(&mut clients, seqno, &mut sync_no, &mut outs, 6).await;
+                quiesce(&mut clients, seqno, &mut sync_no, &mut outs, 6, &Default::default()).await;
                 for (c, ls) in outs {
                     for l in ls {
                         writeln!(out, "burstout {} {}", c, esc(&l)).unwrap();
